@@ -219,6 +219,10 @@ def harness(n, edges, mode, nsteps):
                     pass
         except (symx.Abort, symx.Unmodelled, symx.BudgetExceeded):
             raise
+        except symx.PathTimeout:
+            err = "the step did not end within %d s (%d callbacks so far)" % (ex.path_timeout_s, len(log))
+            ex.abort_all = True
+            log[:] = log[:40]
         except Exception as e:  # noqa
             err = "%s: %s" % (type(e).__name__, str(e)[:100])
         ex.stats.obligations += 1
@@ -264,7 +268,7 @@ def work(item):
     nev = 0
     for (n, edges, mode, nsteps) in item["jobs"]:
         edges = {tuple(e) for e in edges}
-        ex = Explorer(timeout_ms=10000, max_paths=400000, max_decisions=200)
+        ex = Explorer(timeout_ms=10000, max_paths=400000, max_decisions=200, path_timeout_s=3)
         res = ex.explore(harness(n, edges, mode, nsteps))
         st.add(ex.stats)
         nev += 1
@@ -284,6 +288,22 @@ def work(item):
 # replay: concrete re-run with explicit orders / guards / requests, no proxies
 
 def replay(d):
+    import signal
+
+    def on_alarm(signum, frame):
+        raise TimeoutError("step did not end")
+    signal.signal(signal.SIGALRM, on_alarm)
+    signal.alarm(3)
+    try:
+        return replay_inner(d)
+    except TimeoutError:
+        return {"reproduced": True, "detail": "the step does not end within 3 s: graph n=%d edges=%s guards=%s requests=%s" % (
+            d["n"], d["edges"], d.get("guards"), d.get("requests"))}
+    finally:
+        signal.alarm(0)
+
+
+def replay_inner(d):
     import dagrt.language as L
     from dagrt.exec_numpy import NumpyInterpreter
     n = d["n"]
